@@ -1,6 +1,7 @@
 import OjgVerif.JPMut.LemmasFrame
 import OjgVerif.JPMut.LemmasOne
 import OjgVerif.JPMut.LemmasAll
+import OjgVerif.JPMut.LemmasCurrent
 import OjgVerif.Gen.JpMutFacts
 /-! # C13 — Path mutations touch exactly the selected locations
 
@@ -465,44 +466,32 @@ theorem cleanPath_goodS : ∀ (x : List Frag) (d : JV), CleanPath x d → GoodPa
   | [], _, _ => trivial
   | f :: r, d, h => ⟨cleanAt_goodS f d h.1, fun m hm => cleanPath_goodS r m.2 (h.2 m hm)⟩
 
-/-- what is left to ask of the last fragment of a Remove: a slice removes — aligned from the start since 18e5d18, end
-inclusive — the positions the specification selects -/
-def RemClean (f : Frag) (c : JV) : Prop :=
-  match f with
-  | .slice s e t => ∀ xs, c = .arr xs → ∀ i, i < xs.length → remSel Dev.current xs.length s e t i = (sliceIdx xs.length s e t).contains i
-  | .descent => False
-  | _ => True
-
-theorem remClean_good (f : Frag) (c : JV) (h : RemClean f c) : RemGood Dev.current f c := by
+/-- a clean last fragment removes what the specification selects: for a slice because `Slice.remove` drops what the
+inclusive loop visits (`remSel_current`, since 18e5d18), for a union because from-the-end members count (0eb0265) -/
+theorem cleanAt_remGood (f : Frag) (c : JV) (h : CleanAt f c) : RemGood Dev.current f c := by
   cases f with
   | union ms => exact Or.inl rfl
-  | slice s e t => exact h
+  | slice s e t =>
+    intro xs hx i hi
+    rw [remSel_current xs.length s e t i hi, h xs hx]
   | descent => exact h
   | child k => trivial
   | nth i => trivial
   | wild => trivial
   | filter p => trivial
 
-def RemCleanPath (f : Frag) : List Frag → JV → Prop
-  | [], d => RemClean f d
-  | h :: r, d => ∀ m ∈ sel h d, RemCleanPath f r m.2
-
-theorem remCleanPath_good (f : Frag) : ∀ (sx : List Frag) (d : JV), RemCleanPath f sx d → RemPath Dev.current f sx d
-  | [], d, h => remClean_good f d h
-  | _ :: r, _, h => fun m hm => remCleanPath_good f r m.2 (h m hm)
-
-/-- the predicates excluded for the mutation `op` on `(x, d)`, the code as it is -/
-def Clean (x : List Frag) (d : JV) : Op → Prop
-  | .set _ => CleanPath x d
-  | .del => CleanPath x d
-  | .mod _ => CleanPath x d
-  | .rem => ∃ sx f, x = sx ++ [f] ∧ CleanPath sx d ∧ RemCleanPath f sx d
+/-- a clean path is clean up to its last fragment, and its last fragment is clean on every value it is applied to -/
+theorem cleanPath_split (f : Frag) : ∀ (sx : List Frag) (d : JV), CleanPath (sx ++ [f]) d →
+    CleanPath sx d ∧ RemPath Dev.current f sx d
+  | [], d, h => ⟨trivial, cleanAt_remGood f d h.1⟩
+  | g :: r, d, h =>
+    ⟨⟨h.1, fun m hm => (cleanPath_split f r m.2 (h.2 m hm)).1⟩, fun m hm => (cleanPath_split f r m.2 (h.2 m hm)).2⟩
 
 /-- C13 for the code as it is now (all matches, simple data, paths without recursive descent): a mutator that reports
-no error leaves exactly the tree the specification names, outside `Clean` — no union lists a member of the visited
-value twice, every slice selects in the pinned inclusive reading what the specification selects. The filter, root and
-from-the-end exclusions of `C13_partial` are discharged by the repairs. -/
-theorem C13_current (op : Op) (x : List Frag) (d d' : JV) (hnd : NoDescent x) (hw : WF d) (hc : Clean x d op)
+no error leaves exactly the tree the specification names, on every CLEAN path: no union lists a member of the visited
+value twice, every slice selects in the pinned inclusive reading what the specification selects. The filter, root,
+from-the-end and step-alignment exclusions of `C13_partial` are discharged by the repairs. -/
+theorem C13_current (op : Op) (x : List Frag) (d d' : JV) (hnd : NoDescent x) (hw : WF d) (hc : CleanPath x d)
     (h : runModel false Dev.current false x d op = .ok d') : d' = expected x d op := by
   apply C13_partial Dev.current op x d d' hnd hw ?_ h
   cases op with
@@ -510,8 +499,20 @@ theorem C13_current (op : Op) (x : List Frag) (d d' : JV) (hnd : NoDescent x) (h
   | del => exact cleanPath_goodS x d hc
   | mod m => exact ⟨cleanPath_good x d hc, fun h => by simp [Dev.current] at h⟩
   | rem =>
-    obtain ⟨sx, f, hx, h1, h2⟩ := hc
-    exact ⟨sx, f, hx, cleanPath_good sx d h1, remCleanPath_good f sx d h2⟩
+    cases hx : x.getLast? with
+    | none =>
+      have : x = [] := by simpa using hx
+      subst this
+      simp [runModel, removeM] at h
+    | some f =>
+      have hsplit : x = x.dropLast ++ [f] := by
+        have hne : x ≠ [] := by intro e; subst e; simp at hx
+        rw [List.getLast?_eq_some_getLast hne] at hx
+        injection hx with hx
+        rw [← hx, List.dropLast_concat_getLast hne]
+      rw [hsplit] at hc
+      obtain ⟨h1, h2⟩ := cleanPath_split f x.dropLast d hc
+      exact ⟨x.dropLast, f, hsplit, cleanPath_good _ d h1, h2⟩
 
 /-- the corollaries for the code as it is: Set -/
 theorem set_hit_current (v : JV) (x : List Frag) (d d' : JV) (hnd : NoDescent x) (hw : WF d) (hc : CleanPath x d)
@@ -539,9 +540,9 @@ theorem modify_hit_current (m : Modifier) (x : List Frag) (d : JV) (hnd : NoDesc
 
 /-- Remove, the code as it is: no error is possible -/
 theorem remove_current (sx : List Frag) (f : Frag) (d : JV) (hnd : NoDescent (sx ++ [f])) (hw : WF d)
-    (h1 : CleanPath sx d) (h2 : RemCleanPath f sx d) :
+    (hc : CleanPath (sx ++ [f]) d) :
     removeM false Dev.current false (sx ++ [f]) d = .ok (removeSpec (sx ++ [f]) d) :=
-  remove_eq Dev.current sx f d hnd hw (cleanPath_good sx d h1) (remCleanPath_good f sx d h2)
+  remove_eq Dev.current sx f d hnd hw (cleanPath_good sx d (cleanPath_split f sx d hc).1) (cleanPath_split f sx d hc).2
 
 /-- since f263838 / 99212c8 gen data behaves as simple data, for every path -/
 theorem gen_current (one : Bool) (op : Op) (x : List Frag) (d : JV) :
